@@ -484,13 +484,15 @@ def correspondence_step(prop, tier, seed, wdir, log):
     for si, stream in enumerate(prop.streams):
         runs = []
         # corpus first
-        cdir = os.path.join(CORPUS, stream.corpus)
-        if os.path.isdir(cdir):
-            for fn in sorted(os.listdir(cdir)):
-                if fn.endswith(".ops"):
-                    annot, impl, model, st = run_ops(stream, os.path.join(cdir, fn), wdir, f"s{si}-corpus")
-                    merge_stats(collect["run_stats"], st)
-                    examine(prop, stream, annot, impl, model, f"corpus/{stream.corpus}/{fn}", collect)
+        # (the thorough tier also runs corpus-thorough/: cases that take minutes, e.g. one batch of 70 000 orders)
+        for cname in (["corpus", "corpus-thorough"] if tier == "thorough" else ["corpus"]):
+            cdir = os.path.join(ROOT, cname, stream.corpus)
+            if os.path.isdir(cdir):
+                for fn in sorted(os.listdir(cdir)):
+                    if fn.endswith(".ops"):
+                        annot, impl, model, st = run_ops(stream, os.path.join(cdir, fn), wdir, f"s{si}-corpus")
+                        merge_stats(collect["run_stats"], st)
+                        examine(prop, stream, annot, impl, model, f"{cname}/{stream.corpus}/{fn}", collect)
         if tier == "thorough":
             jobs = [(seed * 1000 + 17 * j, stream.thorough // stream.seeds_thorough + 1) for j in range(stream.seeds_thorough)]
         else:
